@@ -484,6 +484,16 @@ impl<'a> History<'a> {
         script.and_then(|s| s.get(k as usize)).map(unwrap_cancel)
     }
 
+    /// scheduler decision (poll) during which the event with this seq was logged; seq numbers are
+    /// contiguous from 1, so this is an index lookup
+    pub fn step_of(&self, seq: u64) -> Option<u64> {
+        let i = seq.checked_sub(1)? as usize;
+        match self.ev.get(i) {
+            Some(e) if e.seq == seq => Some(e.step),
+            _ => self.ev.iter().find(|e| e.seq == seq).map(|e| e.step),
+        }
+    }
+
     pub fn last_seq(&self) -> u64 {
         self.ev.last().map(|e| e.seq).unwrap_or(0)
     }
